@@ -96,6 +96,12 @@ CORPUS = [
     dict(tree=('fn', 'log', _X), x=[20.0, 50.0, -1.0], method='forward', n=1, order=2, shape=[3]),
     dict(tree=('fn', 'sqrt', _X), x=[-0.5, 2.0, 7.0], method='central', n=2, order=2, shape=[3]),
     dict(tree=('fn', 'log', ('mul', _X, _X)), x=[1.5, -2.5, 3.0], method='backward', n=1, order=4, shape=[3], step=dict(kind='scalar', value=0.01)),
+    # integer-typed points in a narrow dtype whose f(x) is still representable there but 2*f(x) is not (int8: 64, uint8: 130): the
+    # rules that use f(x) itself (complex steps, n = 4 and 8) must not do arithmetic in that type (repaired, a33a217)
+    dict(tree=('mul', _X, _X), x=[8.0, 2.0], shape=[2], method='complex', n=8, order=7, int_x=True),
+    dict(tree=('mul', _X, _X), x=[8.0, 2.0], shape=[2], method='complex', n=4, order=2, int_x=True),
+    dict(tree=('add', ('mul', ('mul', _X, _X), _X), _X), x=[5.0, 2.0], shape=[2], method='complex', n=4, order=4, int_x=True),
+    dict(tree=('mul', _X, _X), x=[8.0], method='complex', n=4, order=2, int_x=True),
     # witnesses of the listed (open) findings that a random draw of the quick tier does not always contain
     dict(tree=('fn', 'sin', ('fn', 'expm1', ('div', _X, ('c', 0.1)))), x=[0.5291377990629251, 0.3655232913548389], shape=[2],
          method='central', n=1, order=3),                               # selector-picked-steps-beyond-validity-radius
